@@ -537,6 +537,30 @@ def known_match(known, prop, harness, desc, loc):
 
 # --------------------------------------------------------------------------- main check
 
+def scaled_build_blocker(feats):
+    """The mock8 build replaces MockDisplay's side-length constant (64 -> 8). That only represents the
+    real display if every size-dependent expression goes through the constant: a literal 64/63/4096/4095
+    in the non-test code of mock_display/mod.rs would make the scaled build misbehave although the real
+    one is fine, so the scaled harnesses are then skipped (reported, never an alarm)."""
+    if "cfg:embedded_graphics_verif_mock8" not in feats:
+        return None
+    path = os.path.join(REPO, "src", "mock_display", "mod.rs")
+    try:
+        src = open(path).read()
+    except OSError:
+        return "scaled MockDisplay build skipped: src/mock_display/mod.rs not found"
+    src = src.split("#[cfg(test)]")[0]
+    if "embedded_graphics_verif_mock8" not in src:
+        return "scaled MockDisplay build skipped: the cfg hook is not present in src/mock_display/mod.rs"
+    for ln, line in enumerate(src.splitlines(), 1):
+        code = line.split("//")[0]
+        if re.match(r"\s*const SIZE: usize = (64|8);", code):
+            continue
+        if re.search(r"(?<![\w.])(64|63|4096|4095)(?![\w.])", code):
+            return f"scaled MockDisplay build skipped: literal display size at mock_display/mod.rs:{ln} bypasses the SIZE constant"
+    return None
+
+
 def prop_features(reg, prop):
     return reg.get("property", {}).get(prop, {}).get("features", [prop.lower()])
 
@@ -560,6 +584,11 @@ def check_property(prop, tier, only=None, keep=False, seed=0):
     with FileLock(os.path.join(SLOTS, "build.lock")):
         gen_inputs()
         for bi, feats in enumerate(builds):
+            why = scaled_build_blocker(feats)
+            if why:
+                notes.append(why)
+                log(f"[{prop}] {why}")
+                continue
             hs, bs, out = kani_build(feats, hooks=hooks_on)
             build_s += bs
             if hs is None and hooks_on:
